@@ -55,6 +55,9 @@ inductive Fn
   | orderedItems -- `tuple(d.items())`: insertion order of a dict
   | corner       -- `UnitaryMatrix.__hash__`: two corner entries and the shape
   | opsHash      -- `hash(op)` of every operation: (gate, location)
+  | hashOrDrop   -- `try: hash(v) except TypeError: <without v>`: the value's own hash when it is
+                 -- hashable (python's contract of the value's type: `==` implies equal hashes),
+                 -- nothing otherwise
   | const        -- the same for every instance of the class
   | guard        -- not a hash input (`isinstance`, `hasattr`, error message)
   | unknown
@@ -86,6 +89,10 @@ def fnOf (a : Acc) : Fn :=
     if a.ty ∈ plainTy ∨ a.ty = "?" then .ident
     else if a.ty = "UnitaryMatrix" then .corner
     else .unknown
+  else if a.chain = "hash>try:TypeError" then
+    if a.ty ∈ plainTy then .ident else if a.ty = "dict|str" then .hashOrDrop else .unknown
+  else if a.chain = "hash>except" then
+    if a.ty ∈ plainTy then .ident else .unknown
   else if a.chain = "tuple>hash" then
     if a.ty = "dict_items" then .orderedItems
     else if a.ty ∈ plainTy ∨ a.ty = "?" then .ident else .unknown
@@ -100,7 +107,9 @@ counterexamples there) -/
 def compatible : Rel → Fn → Bool
   | .exact, .ident | .exact, .sortedItems | .exact, .orderedItems | .exact, .corner
   | .exact, .opsHash => true
+  | .exact, .hashOrDrop => true
   | .dictEq, .sortedItems => true
+  | .anyEq, .hashOrDrop => true
   | .opsGateLoc, .opsHash => true
   | _, _ => false
 
@@ -132,12 +141,11 @@ def coherent (r : IdRow) : Bool :=
   (r.eqBy = "object" && r.hashBy = "object")
   || (r.eqBy ≠ "object" && r.hashBy ≠ "object" && r.hashAcc.all (covered r))
 
-/-- rows that are NOT coherent on the unchanged tree - each is a finding of C18
-(design_notes/C18.md): `ConstantUnitaryGate` and `qis.UnitaryMatrix` compare with
-`np.allclose` and hash two exact corner entries; `TaggedGate` hashes the items of a dict tag in
-insertion order (and an arbitrary tag directly); `CircuitGate` hashes its name, which is the
-`str` of its operations' gates and not a function of what `__eq__` compares. -/
+/-- rows that are NOT coherent - the remaining finding of C18 (design_notes/C18.md):
+`ConstantUnitaryGate` and `qis.UnitaryMatrix` compare with `np.allclose` and hash two exact
+corner entries.  (`TaggedGate` and `CircuitGate` left this list with the upstream commits
+aeaacf4 and 888a9b2.) -/
 def knownIncoherent : List String :=
-  ["CircuitGate", "ConstantUnitaryGate", "TaggedGate", "qis.UnitaryMatrix"]
+  ["ConstantUnitaryGate", "qis.UnitaryMatrix"]
 
 end BqVerif.GateIdentity
